@@ -61,3 +61,12 @@ Theorem C20_redelegations_once : forall h del dn, let s := run init_state h in
   length (q_redelegations s del dn) = length (filter (fun kr => match fst kr with [d0; n0; _; _] => (d0 =? del) && (n0 =? dn) | _ => false end) (redels s)).
 Proof. exact redelegations_query_once. Qed.
 Print Assumptions C20_redelegations_once.
+
+(* the by-delegator unbonding query: its answers in denom dn are exactly the by-denom answers when dn is
+   whitelisted, none otherwise (every reachable state) — with C20_unbondings_by_denom_exact: every pending
+   entry of the delegator in a whitelisted asset once, nothing else *)
+Theorem C20_unbondings_by_delegator_exact : forall h del dn, let s := run init_state h in
+  filter (fun a => ans_denom a =? dn) (q_unbondings_by_delegator s del) =
+  if kmem (assets s) [dn] then q_unbondings_by_denom s dn del else [].
+Proof. exact unbondings_by_delegator_exact_reachable. Qed.
+Print Assumptions C20_unbondings_by_delegator_exact.
